@@ -45,6 +45,15 @@ func checkShape(e *v1x.Env, t sizedReader, snap model.Snap, where string, sample
 			e.Bad("shape|"+where+"|inverse", "GetWithIndex(GetByIndex(%d).key)=(%d,%q,%v)", i, idx, v2, err)
 			return
 		}
+		// lookup by key without the rank (this is the path that may be served by the fast index)
+		if g, err := t.Get(k); err != nil || g == nil || string(g) != snap[keys[i]] {
+			e.Bad("shape|"+where+"|key-lookup-vs-rank", "GetByIndex(%d) finds key %q with value %q, but Get(%q)=(%q,nil=%v,%v)", i, k, v, k, g, g == nil, err)
+			return
+		}
+		if has, err := t.Has(k); err != nil || !has {
+			e.Bad("shape|"+where+"|has-vs-rank", "GetByIndex(%d) finds key %q, but Has(%q)=(%v,%v)", i, k, k, has, err)
+			return
+		}
 		// an absent neighbour gets the rank of the next key
 		ak := append([]byte(keys[i]), 0)
 		if _, present := snap[string(ak)]; !present {
@@ -64,17 +73,85 @@ func checkShape(e *v1x.Env, t sizedReader, snap model.Snap, where string, sample
 	}
 }
 
+// runShapeHistory: the shape and rank/key invariants over a general history (rollbacks to a version
+// and re-commits of the same version number, Rollback(), reopenings, pruning, redo) under node
+// caches 0/3/1000 and the fast index on or off - "in every committed version and in the working tree".
+func runShapeHistory(c *fw.Ctx) {
+	w := map[string]int{"set": 40, "rm": 16, "save": 20, "rollback": 5, "reopen": 4, "load": 2, "delto": 4, "lfo": 6, "delfrom": 2, "redo": 2}
+	p := &v1x.GenParams{MinOps: 14, MaxOps: 50, W: w, MaxKeys: 12, InvalidPct: 2, Backends: []string{"mem"},
+		Caches: []int{0, 3, 1000, 1000}, Initials: []int64{0, 0, 1, 7}, BigValues: true}
+	if c.Tier == "thorough" {
+		p.MaxOps = 120
+	}
+	pl := v1x.MakePlan(c.Rng, p)
+	v1x.LazyPrefix(pl, c.Index)
+	c.Res.Digest = fw.DigestOf("history", pl.Cfg, pl.Summary(1000))
+	if c.Index < 6 {
+		c.Res.Sample = pl.Summary(60)
+	}
+	e, err := v1x.NewEnv(c, pl.Cfg)
+	if err != nil {
+		c.Violate(0, "exec|open|error", "%v", err)
+		return
+	}
+	defer e.Close()
+	saves, special := 0, 0
+	for _, op := range pl.Ops {
+		out := e.Apply(op, false)
+		if e.Dead {
+			break
+		}
+		switch op.Kind {
+		case "save":
+			if out.Err == nil {
+				saves++
+			}
+		case "lfo", "delfrom", "rollback", "reopen", "load":
+			special++
+		}
+		state := "clean"
+		if e.M.Dirty {
+			state = "dirty"
+		}
+		checkShape(e, e.T, e.M.Work, "work-"+state, true)
+		vs := e.M.Versions()
+		for i := len(vs) - 1; i >= 0 && i >= len(vs)-3; i-- {
+			it, err := e.T.GetImmutable(vs[i])
+			if err != nil {
+				e.Bad("shape|version|getimmutable", "GetImmutable(%d): %v", vs[i], err)
+				continue
+			}
+			where := "old"
+			if vs[i] == e.M.Latest {
+				where = "latest"
+			}
+			checkShape(e, it, e.M.Vers[vs[i]], where, true)
+		}
+		c.Obs("history_steps_checked", 1)
+		c.State(e.AbstractState())
+		if len(c.Res.Violations) > 0 {
+			break
+		}
+	}
+	c.Obs("steps", e.Step)
+	c.Res.Nontrivial = saves >= 2 && special >= 1
+}
+
 func init() {
 	fw.Register(&fw.Check{
 		ID:    "C11",
 		Level: "exploration",
-		Cases: func(tier string) int { return tierN(tier, 200, 5000) },
-		Rule: "case = one history of insertion/removal phases (ascending, descending, alternating ends, random, saw-tooth; removals that empty whole subtrees; up to 512 keys quick / 4096 thorough) with commits interleaved at random; node cache 0, fast index off for the read-count part. " +
+		Cases: func(tier string) int { return tierN(tier, 400, 10000) },
+		Rule: "two case kinds. (odd index) a general planned history (14-50 ops quick, up to 120 thorough: Set/Remove/commit, Rollback(), rollback to a version and re-commit of the same version number, redo, reopen, LoadVersion, pruning; node cache 0/3/1000, fast index on/off, every 5th without an initial Load()) with the invariants below checked after every step on the working tree and the three newest versions, plus: every key found by rank must be found by Get and Has (the lookups that may be served by the fast index). (otherwise) one history of insertion/removal phases (ascending, descending, alternating ends, random, saw-tooth; removals that empty whole subtrees; up to 512 keys quick / 4096 thorough) with commits interleaved at random; node cache 0, fast index off for the read-count part. " +
 			"At every checkpoint, on the working tree and on sampled retained versions: Height() <= 1.4405*log2(n+2); GetByIndex(i) = i-th pair of the model and GetWithIndex(key_i) = (i, value_i) (all i up to 64 keys, 64 evenly spaced ranks above; thorough: all), absent keys get the rank of their successor, out-of-range ranks give nil; " +
 			"with a counting storage wrapper, the number of stored-node reads ('s' key space) of one public call must not exceed 2h+2 (Get, GetWithIndex, GetByIndex, Has) or 10h+10 (GetProof). " +
 			"distinct = hash(phase list); non-trivial = n >= 16 reached and >=1 removal phase and >=2 commits.",
 		Assumptions: []string{"model M for order and contents", "read counts are taken at the storage seam with node cache size 0 and the fast index disabled"},
 		Run: func(c *fw.Ctx) {
+			if c.Index%2 == 1 {
+				runShapeHistory(c)
+				return
+			}
 			rng := c.Rng
 			maxN := 512
 			if c.Tier == "thorough" {
@@ -237,7 +314,7 @@ func init() {
 			}
 		},
 		Floor: func(obs map[string]int, evals, nontrivial int) string {
-			if obs["height_checks"] < 500 || obs["rank_key_pairs"] < 10000 || obs["read_counts_GetProof"] < 1000 {
+			if obs["height_checks"] < 500 || obs["rank_key_pairs"] < 10000 || obs["read_counts_GetProof"] < 1000 || obs["history_steps_checked"] < 500 {
 				return fmt.Sprintf("too few observations: %v", obs)
 			}
 			return ""
